@@ -196,6 +196,12 @@ func (g *Gen) discharge(obls []*Obligation, workDir string, timeoutS int, all bo
 					files = append(files, lf)
 				}
 			}
+			if o.KnownFinding {
+				// a recorded finding: one short attempt is enough to see that it is still refuted
+				r := runSolversV(files, 5, false, skipCvc5)
+				o.Result, o.Backend, o.Ms, o.Output = r.result, r.backend, r.ms, r.output
+				return
+			}
 			r := runSolversV(files, timeoutS, all && !o.Cover, skipCvc5)
 			if r.result != "unsat" && o.Raw == "" {
 				// candidate counterexample search in the integer-carrier interpretation
